@@ -41,6 +41,11 @@ type s2Case struct {
 	// InstallGate: every finished load is parked at the load.beforeInstall hook point (after its loader returned, before the
 	// installing table computation) until the step has been observed once; then it is let through within the same step.
 	InstallGate bool `json:"install_gate,omitempty"`
+	// ListenerWaits: same-goroutine executor and an OnDeletion listener that, when it runs on the goroutine that has just
+	// finished a load, does not return before the callers that had joined that load have returned (a listener handing its
+	// event to a consumer that sits behind such a Get). Waiters are released before the post-load bookkeeping runs, so this
+	// never blocks for long - unless the release is made to depend on that bookkeeping.
+	ListenerWaits bool `json:"listener_waits,omitempty"`
 }
 
 var s2T *testing.T
@@ -80,13 +85,15 @@ type s2Call struct {
 }
 
 type s2World struct {
-	mu     sync.Mutex
-	stamp  int64
-	invs   []*s2Inv
-	calls  []*s2Call
-	valCtr int
-	writes map[int][]int64 // stamps of harness writes/invalidations per key
-	wrote  map[int]map[int]bool
+	lastInv map[int64]*s2Inv // goroutine id -> the invocation that goroutine finished last
+	callOfG map[int64]*s2Call
+	mu      sync.Mutex
+	stamp   int64
+	invs    []*s2Inv
+	calls   []*s2Call
+	valCtr  int
+	writes  map[int][]int64 // stamps of harness writes/invalidations per key
+	wrote   map[int]map[int]bool
 }
 
 func (w *s2World) tick() int64 { w.stamp++; return w.stamp }
@@ -104,6 +111,9 @@ func (l s2Loader) invoke(kind string, keys, olds []int) (map[int]int, int, error
 	defer w.mu.Unlock()
 	inv.out = out
 	inv.end = w.tick()
+	if w.lastInv != nil {
+		w.lastInv[vh.Goid()] = inv
+	}
 	sorted := append([]int(nil), keys...)
 	sort.Ints(sorted)
 	newVal := func() int { w.valCtr++; return w.valCtr }
@@ -195,11 +205,16 @@ func genS2Case(t *rapid.T, withWrites bool) s2Case {
 		Keys:    rapid.IntRange(1, 4).Draw(t, "keys"),
 	}
 	c.InstallGate = rapid.Bool().Draw(t, "installgate")
+	c.ListenerWaits = rapid.IntRange(0, 3).Draw(t, "listenerwaits") == 0
 	// computecancel: a Compute whose function cancels. It is not a write, an invalidation or an eviction, so it must
 	// neither interrupt single-flight nor change what waiters receive.
 	ops := []string{"get", "get", "get", "bulkget", "bulkget", "release", "release", "release", "release", "computecancel"}
 	if c.Refresh {
 		ops = append(ops, "refresh", "refresh", "bulkrefresh", "advance")
+	} else if c.ListenerWaits {
+		// entries live 100 ns here: a load over an expired entry reports that entry (cause Expiration) from the loading goroutine
+		c.Expiry = true
+		ops = append(ops, "advance", "advance")
 	}
 	if withWrites {
 		ops = append(ops, "set", "invalidate")
@@ -231,6 +246,11 @@ func genS2Case(t *rapid.T, withWrites bool) s2Case {
 // runS2 interprets a case inside a synctest bubble. check is called after the
 // final quiescence with the world; it returns a violation or nil.
 func runS2(c s2Case, prop string, perStep func(w *s2World, cache *otter.Cache[int, int], a *s2Action) error, final func(w *s2World, cache *otter.Cache[int, int]) error) (o outcome, w *s2World) {
+	if c.Refresh {
+		// with a same-goroutine executor a read of a stale entry runs the reload inside the reading call: the refresh checks
+		// of this world assume reloads run on the executor's own goroutines
+		c.ListenerWaits = false
+	}
 	w = &s2World{writes: map[int][]int64{}, wrote: map[int]map[int]bool{}}
 	var verr error
 	func() {
@@ -248,12 +268,70 @@ func runS2(c s2Case, prop string, perStep func(w *s2World, cache *otter.Cache[in
 			}
 			if c.Expiry {
 				opts.ExpiryCalculator = otter.ExpiryWriting[int, int](time.Hour)
+				if c.ListenerWaits {
+					opts.ExpiryCalculator = otter.ExpiryWriting[int, int](100 * time.Nanosecond)
+				}
 			}
 			if c.Bounded {
 				opts.MaximumSize = 1000
 			}
+			// automatic removals (expiration sweeps, evictions) count like invalidations: they end a key's in-flight load record
+			opts.OnAtomicDeletion = func(e otter.DeletionEvent[int, int]) {
+				if e.Cause != otter.CauseExpiration && e.Cause != otter.CauseOverflow {
+					return
+				}
+				w.mu.Lock()
+				w.writes[e.Key] = append(w.writes[e.Key], w.tick())
+				w.mu.Unlock()
+			}
 			var execWG sync.WaitGroup
-			if c.Tracked {
+			stepCh := make(chan struct{})
+			var stepMu sync.Mutex
+			listenersParked := 0
+			if c.ListenerWaits {
+				w.lastInv = map[int64]*s2Inv{}
+				w.callOfG = map[int64]*s2Call{}
+				opts.Executor = func(fn func()) { fn() }
+				opts.OnDeletion = func(e otter.DeletionEvent[int, int]) {
+					g := vh.Goid()
+					for {
+						w.mu.Lock()
+						inv := w.lastInv[g]
+						waiting := false
+						if inv != nil && inv.end != 0 {
+							covers := false
+							for _, k := range inv.keys {
+								covers = covers || k == e.Key
+							}
+							for _, cl := range w.calls {
+								if !covers || cl.done || cl == w.callOfG[g] || cl.start > inv.end || (cl.kind != "get" && cl.kind != "refresh") || cl.keys[0] != e.Key {
+									continue
+								}
+								// a single-key call on this key that was under way when the invocation ended and did not load itself: a waiter
+								own := false
+								for _, o := range w.invs {
+									own = own || (o != inv && len(o.keys) == 1 && o.keys[0] == e.Key && o.start > cl.start && o.end == 0)
+								}
+								if !own {
+									waiting = true
+								}
+							}
+						}
+						w.mu.Unlock()
+						if !waiting {
+							return
+						}
+						stepMu.Lock()
+						ch := stepCh
+						listenersParked++
+						stepMu.Unlock()
+						<-ch
+						stepMu.Lock()
+						listenersParked--
+						stepMu.Unlock()
+					}
+				}
+			} else if c.Tracked {
 				opts.Executor = func(fn func()) {
 					execWG.Add(1)
 					go func() {
@@ -335,6 +413,19 @@ func runS2(c s2Case, prop string, perStep func(w *s2World, cache *otter.Cache[in
 			settle := func() error {
 				for round := 0; round < 100; round++ {
 					synctest.Wait()
+					// wake the listeners that are waiting for callers to return, until none is left waiting (a loading goroutine
+					// parked in its listener has not finished distributing its results: the step is not settled yet)
+					for lr := 0; c.ListenerWaits && lr < 20; lr++ {
+						stepMu.Lock()
+						n := listenersParked
+						close(stepCh)
+						stepCh = make(chan struct{})
+						stepMu.Unlock()
+						synctest.Wait()
+						if n == 0 {
+							break
+						}
+					}
 					if err := observe(); err != nil {
 						return err
 					}
@@ -357,6 +448,11 @@ func runS2(c s2Case, prop string, perStep func(w *s2World, cache *otter.Cache[in
 				w.calls = append(w.calls, cl)
 				w.mu.Unlock()
 				go func() {
+					if w.callOfG != nil {
+						w.mu.Lock()
+						w.callOfG[vh.Goid()] = cl
+						w.mu.Unlock()
+					}
 					defer func() {
 						r := recover()
 						w.mu.Lock()
@@ -437,7 +533,7 @@ func runS2(c s2Case, prop string, perStep func(w *s2World, cache *otter.Cache[in
 							rel.Out = bulk
 						}
 						// reload panics on the default executor would kill the process (outside every listed property)
-						if rel.Out == "panic" && (inv.kind == "reload" || inv.kind == "bulkreload" || s2OnExecutor(w, inv)) && !c.Tracked {
+						if rel.Out == "panic" && (inv.kind == "reload" || inv.kind == "bulkreload" || s2OnExecutor(w, inv)) && (!c.Tracked || c.ListenerWaits) {
 							rel.Out = "err"
 						}
 						inv.out.Op = "releasing"
@@ -629,7 +725,11 @@ func c08Final(w *s2World, cache *otter.Cache[int, int]) error {
 					}
 				}
 				if !ok {
-					return fmt.Errorf("Get(%d) returned error %v although no overlapping loader invocation failed", k, cl.err)
+					desc := ""
+					for _, inv := range w.invs {
+						desc += fmt.Sprintf(" %s%v[%d,%d]err=%v vals=%v;", inv.kind, inv.keys, inv.start, inv.end, inv.err, inv.vals)
+					}
+					return fmt.Errorf("Get(%d) (call [%d,%d]) returned error %v although no overlapping loader invocation failed; invocations:%s", k, cl.start, cl.end, cl.err, desc)
 				}
 				continue
 			}
